@@ -236,6 +236,25 @@ func cmdCheck(args []string) int {
 		}
 	}
 
+	// obligations that were discharged on the pinned tree but no longer exist
+	var missing []string
+	{
+		have := map[string]bool{}
+		for _, fr := range runs {
+			for _, r := range fr.Results {
+				have[baseName(r.Obl.Name)] = true
+			}
+		}
+		for n := range exp {
+			if !have[n] {
+				missing = append(missing, n)
+			}
+		}
+		sort.Strings(missing)
+		if len(missing) > 0 && !*record {
+			fmt.Fprintf(os.Stderr, "note: %d obligation(s) recorded for the pinned tree were not generated on this tree (code or contracts changed): %s\n", len(missing), strings.Join(missing[:min(len(missing), 5)], "; "))
+		}
+	}
 	if *record && exit == 0 {
 		sort.Strings(dischargedNames)
 		expected[id] = uniq(dischargedNames)
@@ -319,6 +338,7 @@ func cmdCheck(args []string) int {
 		"explanation":       "obligations = verification conditions generated from /repo's current source for the functions listed under 'functions' (excluding those matched by an open entry of known_findings.json, listed separately); discharged = proved unsat-negation by an SMT solver or reduced to true by the term simplifier; bounded stand-ins are listed under 'bounded' and are not counted",
 		"contract_files":    w.Specs.Files,
 		"mirror_fallback":   w.UsedMirror,
+		"missing_expected":  missing,
 	}
 	if len(samples) == 0 {
 		cov["samples"] = []map[string]interface{}{{"note": "no solver-discharged obligation in this run"}}
